@@ -17,6 +17,13 @@ VIOLATION with a replay on seed 0, quick tier:
   M9 TextIndex: `applyNotEq = applyNotContains` -> `applyNotEq = applyContains`            caught (nq via applyNotEq)
   M10 unindex_doc: `for wid in TreeSet(get_words(docid))` -> over `get_words(docid)[:-1]` (the last word's posting
      keeps the document)                                                                  caught (atom after unindex)
+Seeded changes missed before the vocabulary had words with a repeated prefix / characters beyond the BMP, now caught
+(C03_E: prog.search instead of prog.match, `co?` matches `cocoa` through its tail; C03_D: range scan bounded by
+prefix + U+FFFF skips words continuing with an astral character); further mutations of these classes and of the
+zero-token class (C03_C), each VIOLATION on quick seed 0:
+  M11 globToWordIds: pattern for the part after the prefix, matched against key.lstrip(prefix)   caught (glob)
+  M12 range scan bounded by prefix + U+1FFFF (only plane-2/3 continuations are skipped)     caught (glob; missed before)
+  M13 reindex_doc with a text without tokens unindexes the document                         caught (nq / obs)
 """
 import re
 import sys
@@ -44,7 +51,17 @@ RULE = ("each case = one real TextIndex (Okapi or cosine back end, family32/64, 
         "(thorough only: 17 000 fillers, 3-byte ids); after operations and at the end 6-30 queries from the "
         "grammar (atoms known/unknown/stop/mixed case, phrases cut from documents incl. repeated words, "
         "near-miss phrases ending in a word whose id code is a prefix of the following document word's, "
-        "punctuation-joined phrases, globs prefix*/infix?/several, hyphen-NOT, AND/OR/AND NOT/NOT, parentheses), "
+        "punctuation-joined phrases, globs prefix*/infix?/several/?-only, hyphen-NOT, AND/OR/AND NOT/NOT, "
+        "parentheses); 40% of the vocabularies get 1-3 words in which a prefix occurs twice (cocoa, murmur, or derived "
+        "from the case's words) and 40% get 1-3 words with a character beyond U+00FF or beyond the BMP after a prefix "
+        "(U+0100, U+03A9, CJK, U+FFDC, U+10000, cased U+10400, U+1D400, U+1D7D9, U+20BB7, U+323AF), with globs cut at "
+        "exactly those places (?-only patterns fitting only the word's tail; prefix ending before the high "
+        "character); 5% of the operations start a zero-token episode (empty / white space / punctuation / stop-word "
+        "text, then unindex / re-index with text, without tokens or without value, then mostly NOT queries and "
+        "obs/obsfresh); measured quick seed 0, of 1600 cases: a glob for which only a tail of a vocabulary word fits "
+        "588, a glob match continuing beyond the BMP 470, beyond U+00FF 839, NOT query after a zero-token document "
+        "was removed 1096, with one present 1081, zero-token document unindexed 635 / re-indexed with text 819 / "
+        "without tokens again 355, "
         "each through one of apply/applyContains/applyEq/contains().execute()/eq().execute() resp. "
         "applyNotContains/applyNotEq/notcontains().execute()/noteq().execute(); answers compared as sorted id "
         "sets with the model's and the specification's (filter of the document table by sat). non-trivial = at "
